@@ -1,6 +1,13 @@
 """Layer L1: contracts of the real SQLite store / queue functions (SQL text interpreted by pyvc.sql)."""
 import z3
 
+
+def _zsum(ts):
+    """z3.Sum, except that a one-element sum is the element itself: z3 prints (+ x) for it, which cvc5 1.0 rejects."""
+    ts = list(ts)
+    return ts[0] if len(ts) == 1 else z3.Sum(ts)
+
+
 from pyvc import sql as SQL
 from pyvc import trace as T
 from pyvc.ops import FALSE, TRUE
@@ -1109,7 +1116,7 @@ def _commit_scope_post(ctx):
     if fe:
         goals.append(("publishes-only-at-outermost-commit", z3.And(z3.Not(nobound), d == 1)))
         j = fresh_int("pj")
-        once = z3.Sum([z3.If(z3.And(j < e.data["hi"], z3.substitute(e.data["cond"], (e.data["g"], j))), 1, 0) for e in fe]) == 1
+        once = _zsum([z3.If(z3.And(j < e.data["hi"], z3.substitute(e.data["cond"], (e.data["g"], j))), 1, 0) for e in fe]) == 1
         goals.append(("publishes-every-pending-event-once", z3.Implies(z3.And(j >= 0, j < I.ops.list_len(pending)), once)))
         b = [x for x in fe[0].data["body"] if x.kind == "publish"]
         goals.append(("publishes-the-pending-event", z3.BoolVal(len(b) == 1 and isinstance(b[0].data["event"], SElem) and b[0].data["event"].lid == pending.lid)))
